@@ -121,7 +121,17 @@ pub fn gen_frag_cfg(r: &mut Rng, o: &FragOpts) -> (FragCfg, Option<av1::SeqHdr>)
     }
     if via_builder && r.chance(1, 4) {
         // a track language given to the builder travels with the muxer (not with FragmentConfig)
-        c.lang = Some(crate::gen::hist::langs(r));
+        // mostly well-formed codes; a quarter are tags applications really pass (two letters,
+        // BCP 47, upper case, empty) or hostile ones: what is stored for those is not specified,
+        // but the init segment still has to be a well-formed tree
+        c.lang = Some(if r.chance(1, 4) {
+            match r.below(3) {
+                0 => r.pick(&["", "en", "EN", "ENG", "en-US", "pt-BR", "zh-Hant", "engl", "e1g", "é", "de_DE"]).to_string(),
+                _ => crate::gen::hist::hostile_lang(r),
+            }
+        } else {
+            crate::gen::hist::langs(r)
+        });
     }
     if via_builder && r.chance(1, 5) {
         // superfluous builder calls for OTHER codecs (a builder first prepared for another codec,
@@ -231,6 +241,11 @@ pub fn gen_frag_ops(r: &mut Rng, o: &FragOpts) -> Vec<FOp> {
     let mut queued = 0usize;
     let reorder = r.chance(1, 3);
     let mut k = 0u64;
+    // jitter that cancels out: a sample that comes j ticks early is followed by one that is back
+    // on the grid, so first interval, last interval and mean interval of a fragment can all be
+    // equal while the intervals in the middle are not
+    let mut carry = 0u64;
+    let cancelling = r.chance(1, 4);
     while ops.len() < n {
         let mut c = r.below(100);
         if o.long_fragments && (55..75).contains(&c) && !r.chance(1, 400) {
@@ -264,6 +279,16 @@ pub fn gen_frag_ops(r: &mut Rng, o: &FragOpts) -> Vec<FOp> {
                 dts - 1 - r.below(dts.min(5000))
             } else {
                 let inc = match r.below(7) {
+                    _ if carry > 0 => {
+                        let c = carry;
+                        carry = 0;
+                        step + c
+                    }
+                    _ if cancelling && step > 1 && r.chance(1, 3) => {
+                        carry = r.range(1, step).min(step);
+                        step - carry
+                    }
+                    _ if cancelling => step,
                     0 => 0,
                     1 => 1,
                     2 => r.below(100_000),
